@@ -197,10 +197,13 @@ class Sweep:
         impl = Impl(self.py4hw, block, fmts)
         ops = self.operands(block, fmts, rows)
         out = []
+        nontriv = 0
+        unary = block in ('sign', 'signx')
         for (a, b) in ops:
             r = impl.eval(a, b)
             out.append(r)
             exp = oracle(block, fmts, a, b)
+            if exp is not None and a != 0 and (b != 0 or unary): nontriv += 1
             if exp is not None and r != exp:
                 if f1_region(block, fmts, a, b):
                     kf = [k for k in ctx.known if k['id'] == 'C14-F1' and k.get('status') == 'known']
@@ -218,7 +221,7 @@ class Sweep:
         ctx.count(None, n=n)
         # (block, formats, a, b) distinct by construction: a table is built once per key, its rows are distinct, wide (sampled) tables use
         # widths >= 7 and never overlap the exhaustive ones.  Non-trivial: the property makes a claim for the row and no operand is zero
-        self.bulk += sum(1 for (a, b) in ops if a != 0 and (b != 0 or block in ('sign', 'signx')) and oracle(block, fmts, a, b) is not None)
+        self.bulk += nontriv
         if n > 200 and len(ctx.cov['samples']) < 8 and block not in [s.get('block') for s in ctx.cov['samples']]:
             k = (n * 5) // 7
             ctx.sample({'block': block, 'formats': [list(F) for F in fmts], 'a': ops[k][0], 'b': ops[k][1], 'impl': out[k],
